@@ -588,6 +588,27 @@ def DmigRead.assign (d : DmigRead) : List ((Int Ã— Int) Ã— (Int Ã— Int) Ã— Val Ã
   if d.form == .int 6 then d.entries.flatMap fun (r, c, x, y) => [(r, c, x, y), (c, r, x, y)]
   else d.entries
 
+/-- the value the reader's matrix holds at (row label, column label) after all assignments (`mat`
+starts as zeros; the last assignment to a position wins); `none` = never assigned -/
+def lastAssign (as : List ((Int Ã— Int) Ã— (Int Ã— Int) Ã— Val Ã— Val)) (r c : Int Ã— Int) : Option (Val Ã— Val) :=
+  as.foldl (fun acc e => if e.1 = r âˆ§ e.2.1 = c then some e.2.2 else acc) none
+
+/-- `mtype < 3` -/
+def DmigRead.isReal (d : DmigRead) : Bool :=
+  match d.mtype with
+  | .int t => t < 3
+  | _ => false
+
+/-- the values of the DataFrame `rddmig` returns, row index `rows`, column index `cols`: zeros, then
+the assignments; the imaginary part is not read for the real types -/
+def DmigRead.cell (d : DmigRead) (r c : Int Ã— Int) : Val Ã— Val :=
+  match lastAssign d.assign r c with
+  | some (x, y) => (x, if d.isReal then Val.int 0 else y)
+  | none => (Val.int 0, Val.int 0)
+
+def DmigRead.frame (d : DmigRead) : List (List (Val Ã— Val)) :=
+  d.rows.map fun r => d.cols.map fun c => d.cell r c
+
 def key (p : Int Ã— Int) : Int := 10 * p.1 + p.2
 
 def insertKey (p : Int Ã— Int) : List (Int Ã— Int) â†’ List (Int Ã— Int)
